@@ -64,6 +64,9 @@ func (e *Executor) Collect(c *RawCollector) {
 	defer itr.Close()
 	for ; itr.Valid(); itr.Next() {
 		k, v := itr.Key(), itr.Value()
+		if len(v) > 1024 {
+			continue // the mutation space grows with the square of the length; long encodings add nothing to it
+		}
 		switch {
 		case k[0] == 's' && (len(v) == 0 || v[0] == 's'):
 			c.add(c.Marker, v, 40)
